@@ -460,4 +460,38 @@ theorem prelude_establishes (call : CallFn N) (ρ : ExtOracle N) (k : Nat) (env 
   · intro m hm; exact hpre'.ready m (by simpa using hm)
   · intro m hm; exact hpre'.slotsDone m (by simpa using hm)
 
+theorem getTable_allocTable_empty (σ : State N) (t : Nat) :
+    (σ.allocTable { entries := [], mt := none }).2.getTable t = σ.getTable t := by
+  simp only [State.getTable, State.allocTable]
+  by_cases h : t < σ.tables.length
+  · rw [List.getElem?_append_left h]
+  · have h1 : σ.tables[t]? = none := by simp; omega
+    rw [h1, List.getElem?_append_right (by omega)]
+    cases hd : t - σ.tables.length with
+    | zero => simp
+    | succ k => simp
+
+/-- allocating an empty table disturbs nothing -/
+theorem BI.allocTable {L : Layout} {mods : List ModInfo} {loaded : String → Option (Nat × Val N)} {σ : State N}
+    (h : BI L mods loaded σ) : BI L mods loaded (σ.allocTable { entries := [], mt := none }).2 := by
+  have hg : ∀ t k, (σ.allocTable { entries := [], mt := none }).2.rawGet t k = σ.rawGet t k := by
+    intro t k; simp only [State.rawGet, getTable_allocTable_empty]
+  have hlen : σ.tables.length < (σ.allocTable { entries := [], mt := none }).2.tables.length := by
+    simp [State.allocTable]
+  refine ⟨⟨h.infra.hMv, h.infra.hMI, h.infra.hM, h.infra.cellM, by rw [hg]; exact h.infra.cache,
+    by rw [getTable_allocTable_empty]; exact h.infra.plainC, by have := h.infra.ltC; omega, h.infra.neC⟩, ?_, ?_⟩
+  · intro m hm
+    have r := h.ready m hm
+    exact ⟨by rw [hg]; exact r.field, r.acc, r.cell, r.impl⟩
+  · intro m hm
+    have sl := h.slots m hm
+    unfold SlotOk at sl ⊢
+    cases hl : loaded m.name with
+    | none => rw [hl] at sl; simp only; rw [hg]; exact sl
+    | some p =>
+      rw [hl] at sl; obtain ⟨tb, w⟩ := p
+      simp only at sl ⊢
+      exact ⟨by rw [hg]; exact sl.1, by rw [hg]; exact sl.2.1, by rw [getTable_allocTable_empty]; exact sl.2.2.1,
+        sl.2.2.2.1, sl.2.2.2.2.1, by have := sl.2.2.2.2.2; omega⟩
+
 end DarkluaModel.C05
